@@ -126,17 +126,29 @@ Definition ext_quality_okb (j : json) (ic ia : bool) (e : exp_read) : bool :=
   | Some (ni, pens) => ia && match ext_quality j tid ic with Some (ni', pens') => Nat.eqb ni ni' && eqb_list Nat.eqb pens pens' | None => false end
   | None => negb ia end.
 
+(* C12, "exactly the registrations ... that have a valid choice or instruct an offered course": every participant of the implementation's
+   problem has a choice or is listed as instructor of one of the problem's courses (by its index), on the implementation's output alone *)
+Definition involved_okb (e : exp_read) : bool :=
+  let '(eps, ecs, _, _, _, _) := e in
+  forallb (fun ip : nat * exp_p =>
+             let '(i, (_, _, chs)) := ip in
+             negb (match chs with [] => true | _ => false end) ||
+             existsb (fun ec : exp_c => let '(_, _, _, _, ins, _, _, _, _) := ec in existsb (Nat.eqb i) ins) ecs)
+          (combine (seq 0 (List.length eps)) eps).
+
 (* bits: 1 reader model = implementation (problem, quality data, ids; or both refuse) | 2 the implementation accepted the document
    | 4 C12: penalty = position in the original choice list | 8 C12: documents that must be refused are refused
    | 16 C08: ignored pre-assigned participants are rated by their course's rank in the original choice list
-   | 32 the declarative specification CdeSpec.spec_read = implementation *)
+   | 32 the declarative specification CdeSpec.spec_read = implementation
+   | 64 C12: every participant of the problem has a valid choice or instructs a course of the problem *)
 Definition check_read (c : read_case) : N :=
   let '(j, tr, ic, ia, ff, of, e) := c in
   ((if read_agree (read_fields j tr ic ia ff of) e then 1 else 0) + (match e with Some _ => 2 | None => 0 end) +
    (match e with Some ex => if penalties_okb j ex then 4 else 0 | None => 4 end) +
    (match e with Some _ => if must_refuseb j tr then 0 else 8 | None => 8 end) +
    (match e with Some ex => if ext_quality_okb j ic ia ex then 16 else 0 | None => 16 end) +
-   (if read_agree (spec_read j tr ic ia ff of) e then 32 else 0))%N.
+   (if read_agree (spec_read j tr ic ia ff of) e then 32 else 0) +
+   (match e with Some ex => if involved_okb ex then 64 else 0 | None => 64 end))%N.
 
 (* end to end: export, options, and the registrations / course segments of the import file the real binary wrote *)
 Definition import_case := (json * option Z * bool * bool * option (list (Z * Z) * list (Z * bool)))%type.
